@@ -54,6 +54,10 @@ def ops64 : Ops Float :=
     sum := fun l => l.foldl (· + ·) (Float.ofBits 0x8000000000000000),
     half := fun x => (0.5 : Float) * x }
 
+/-- integer sample types (`impl Half for i32 ..`: `self >> 1`); the harness keeps every value far from overflow -/
+def opsInt : Ops Int :=
+  { zero := 0, add := (· + ·), mul := (· * ·), sum := fun l => l.foldl (· + ·) 0, half := fun x => x / 2 }
+
 def f32 (v : Int) : Float32 := Float32.ofBits v.toNat.toUInt32
 def f64 (v : Int) : Float := Float.ofBits v.toNat.toUInt64
 def b32 (x : Float32) : Int := x.toBits.toNat
@@ -66,6 +70,8 @@ inductive HbfObj where
   | int64 (d : HbfInt Float)
   | decc (d : HbfDecCascade Float32)
   | intc (d : HbfIntCascade Float32)
+  | deci (d : HbfDec Int)
+  | inti (d : HbfInt Int)
 
 structure DState where
   objs : List (Int × HbfObj) := []
@@ -191,7 +197,9 @@ def evalOp (st : DState) (m : Mode) (op : String) (a : List Tok) : Option (DStat
       | 0 => .dec32 (HbfDec.new ops32 n.toNat (taps.map f32))
       | 1 => .int32 (HbfInt.new ops32 n.toNat (taps.map f32))
       | 2 => .dec64 (HbfDec.new ops64 n.toNat (taps.map f64))
-      | _ => .int64 (HbfInt.new ops64 n.toNat (taps.map f64))
+      | 3 => .int64 (HbfInt.new ops64 n.toNat (taps.map f64))
+      | 4 => .deci (HbfDec.new opsInt n.toNat taps)
+      | _ => .inti (HbfInt.new opsInt n.toNat taps)
     some (st.put id o, "ok")
   | "hbf_newc", [.int id, .int kind, .int depth] =>
     let mk (i : Nat) : List Float32 × Nat :=
@@ -210,6 +218,8 @@ def evalOp (st : DState) (m : Mode) (op : String) (a : List Tok) : Option (DStat
     | .int64 d => let (d', y) := d.process ops64 (x.map f64); some (st.put id (.int64 d'), showList (y.map b64))
     | .decc d => let (d', y) := d.process ops32 (x.map f32); some (st.put id (.decc d'), showList (y.map b32))
     | .intc d => let (d', y) := d.process ops32 (x.map f32); some (st.put id (.intc d'), showList (y.map b32))
+    | .deci d => let (d', y) := d.process opsInt x; some (st.put id (.deci d'), showList y)
+    | .inti d => let (d', y) := d.process opsInt x; some (st.put id (.inti d'), showList y)
   | "hbf_rlen", [.int kind, .list ms, .int depth] =>
     pure' (toString (if kind == 0 then hbfDecResponseLength (ms.map Int.toNat) depth.toNat
                      else hbfIntResponseLength (ms.map Int.toNat) depth.toNat))
@@ -314,6 +324,57 @@ def evalApprox (op : String) (a : List Tok) (rhs : List Tok) : Option (Bool × S
       let m := [c0, c1, c2, c3, c4]
       some (m == r && fToInt w.toNat (fOfBits u * y) == ru && fToInt w.toNat (fOfBits mn * y) == rmn && fToInt w.toNat (fOfBits mx * y) == rmx,
         s!"{showList m} {fToInt w.toNat (fOfBits u * y)}")
+  | "f_filterrepr", [.int w, .int q, .int typ, .int sk, .int sv, .int fr, .int gdb, .int sdb, .int off, .int mn, .int mx,
+      .int period, .int bs, .int ys], [.list r, .int ru, .int rmn, .int rmx] =>
+    -- `BiquadRepr::Filter(FilterRepr {..}).build(period, b_scale, y_scale)`: gains given in dB, frequency in absolute
+    -- units, then the cookbook builder, the b scaling, `Biquad::from` and the scaled offset / limits
+    let gain := Float.pow 10.0 (fOfBits gdb / 20.0)
+    let shelf := Float.pow 10.0 (fOfBits sdb / 20.0)
+    let w0 := 6.283185307179586 * (fOfBits fr * fOfBits period)
+    let cfg : FilterCfg Float := ⟨w0, gain, shelf, shapeOf sk (fOfBits sv)⟩
+    let ((b0, b1, b2), a) := cfg.build floatOps typ.toNat
+    let s := fOfBits bs
+    let ba : BA Float := ((b0 * s, b1 * s, b2 * s), a)
+    let y := fOfBits ys
+    if w == 0 then
+      let (c0, c1, c2, c3, c4) := biquadFromBa floatOps (fun x => x) ba
+      let m := [c0, c1, c2, c3, c4]
+      let e := r.map fOfBits
+      let sb := (m.take 3).foldl (fun acc v => if v.abs > acc then v.abs else acc) 1e-300
+      let sa := (m.drop 3).foldl (fun acc v => if v.abs > acc then v.abs else acc) 1e-300
+      let okc := m.length == e.length && (List.zip m e).zipIdx.all fun ((x, y), i) =>
+        (x.isNaN && y.isNaN) || x == y || (x - y).abs ≤ 1e-10 * (if i < 3 then sb else sa) || (x.isInf && y.isInf && (x > 0) == (y > 0))
+      some (okc && f64eq (fOfBits off * y) (fOfBits ru) && f64eq (fOfBits mn * y) (fOfBits rmn) && f64eq (fOfBits mx * y) (fOfBits rmx),
+        s!"{showList (m.map fToBits)}")
+    else
+      let (c0, c1, c2, c3, c4) := biquadFromBa floatOps (quantizeInt w.toNat q.toNat) ba
+      let m := [c0, c1, c2, c3, c4]
+      let okc := m.length == r.length && (List.zip m r).all fun (x, y) => (x - y).natAbs ≤ 2 + x.natAbs / 2 ^ 32
+      some (okc && fToInt w.toNat (fOfBits off * y) == ru && fToInt w.toNat (fOfBits mn * y) == rmn && fToInt w.toNat (fOfBits mx * y) == rmx,
+        s!"{showList m} {fToInt w.toNat (fOfBits off * y)}")
+  | "f_to_ba", [.int w, .int q, .list [c0, c1, c2, c3, c4]], [.list r] =>
+    -- `<[[f64; 3]; 2]>::from(&Biquad<T>)`: the coefficients as f64 with a0 = ONE (no division)
+    let cv : Int → Float := fun c => if w == 0 then fOfBits c else Float.ofInt c
+    let one : Float := if w == 0 then 1.0 else Float.ofInt (2 ^ q.toNat)
+    let m := [cv c0, cv c1, cv c2, one, cv c3, cv c4]
+    some (m.map fToBits == r, showList (m.map fToBits))
+  | "f_divscaled", [.int a, .int b], [.int r] =>
+    -- float `Coefficient::div_scaled` is plain division
+    let m := fOfBits a / fOfBits b
+    some (f64eq m (fOfBits r), toString (fToBits m))
+  | "f_svf", [.int f0, .int qq, .list [lp, hp, bp], .int x], [.list [rl, rh, rb]] =>
+    -- `Svf::set_frequency(f0)`, `set_q(q)`, `update(&mut State {lp, hp, bp}, x)`
+    let f := 2.0 * Float.sin (3.141592653589793 * fOfBits f0)
+    let qi := 1.0 / fOfBits qq
+    let _ := hp
+    let lp' := fOfBits bp * f + fOfBits lp
+    let hp' := fOfBits x - lp' - fOfBits bp * qi
+    let bp' := hp' * f + fOfBits bp
+    let m := [lp', hp', bp']
+    let e := [rl, rh, rb].map fOfBits
+    let sc := ([fOfBits lp, fOfBits bp, fOfBits x] ++ m).foldl (fun acc v => if v.abs > acc then v.abs else acc) 1e-300
+    let ok := (List.zip m e).all fun (a, b) => (a.isNaN && b.isNaN) || a == b || (a - b).abs ≤ 1e-12 * sc * (1 + f.abs + qi.abs)
+    some (ok, showList (m.map fToBits))
   | "f_quantize", [.int w, .int q, .int v], [.int r] =>
     let m := quantizeInt w.toNat q.toNat (fOfBits v)
     some (m == r, toString m)
